@@ -78,7 +78,7 @@ def _query_events(P, metric, queries, exprs=None, rel=1e-9):
         if amb or not (math.isfinite(d) and math.isfinite(v1)):
             e["defcls"] = "ambiguous"
         else:
-            e["defcls"] = "equal" if numeric.close(v1, d, rel=rel, ab=1e-12 if rel <= 1e-9 else 1e-9) else "differs"
+            e["defcls"] = "equal" if numeric.close(v1, d, rel=rel, ab=1e-12 if rel <= 1e-9 else 1e-8) else "differs"
         e["nonneg"] = bool(v1 >= 0) or math.isnan(v1)
         e["perfect"] = "na"
         if len(S) == n:
@@ -228,7 +228,7 @@ def _record_random(item):
     if metric == "r2" and rng.random() < 0.3:       # heights far from the origin (R2 is translation invariant)
         P[:, 1] = np.round(P[:, 1] * 8) / 8 + float(2 ** 26)
         rel = 1e-6
-    if rng.random() < 0.25:
+    if rel == 1e-9 and rng.random() < 0.25:      # (never together with the height offset: two offsets compound the rounding)
         # abscissae far from the origin relative to their spacing (exactly representable): the definition interpolates
         # between breakpoints, so it is translation invariant in x; a relative comparison of segment end abscissae is not
         xs = np.round(P[:, 0])
